@@ -1,7 +1,11 @@
 ----------------------------- MODULE Trace_Scc ------------------------------
 (* Batch judge for C19: each case is one observed call of fggs.utils.scc     *)
-(* (kind "scc") or fggs.utils.nonterminal_graph (kind "nt").                 *)
-EXTENDS Scc
+(* (kind "scc") or fggs.utils.nonterminal_graph (kind "nt").  For "scc" the   *)
+(* driver also observed the order in which the code read g[v] (= entered       *)
+(* visit(v)); the Tarjan machine is replayed on the same input and a difference *)
+(* in visiting or emission order is reported as drift of that descriptive model *)
+(* (never a verdict).                                                         *)
+EXTENDS Tarjan
 VARIABLE tid
 Cases == JsonDeserialize("cases.json")
 Init == tid \in 1..Len(Cases)
@@ -9,5 +13,7 @@ Next == UNCHANGED tid
 Verdict(c) == IF c.kind = "scc" THEN
                  IF c.out # "ok" THEN "Raised" ELSE SccVerdict(c.g, c.comps)
               ELSE IF c.out # "ok" THEN "Raised" ELSE SccNtVerdict(c.g, c.verts, c.edges, c.keys)
-Judge == PrintT(ToJson([gtid |-> Cases[tid].gtid, v |-> Verdict(Cases[tid]), tags |-> <<>>]))
+Drift(c) == IF c.kind = "scc" /\ c.out = "ok" /\ c.g.n <= 8
+            THEN TjDrift([n |-> c.g.n, adj |-> c.g.adj, order |-> c.order], c.visits, c.comps) ELSE "none"
+Judge == PrintT(ToJson([gtid |-> Cases[tid].gtid, v |-> Verdict(Cases[tid]), tags |-> <<>>, drift |-> Drift(Cases[tid])]))
 =============================================================================
